@@ -820,6 +820,40 @@ func c16ToWalk(r *Run) {
 		return
 	}
 	lb := fa.Lin(bsp)
+	// what is normalised is the path as given, split at '/': only leading/trailing separators may be trimmed first.
+	// Cleaning it beforehand (path.Clean) folds `/..` into `/` and hides the climb above the root that ToWalk must refuse.
+	{
+		okIn := false
+		why := "the argument of NormalizePath is not strings.Split(<the path parameter, trimmed of '/'>, \"/\")"
+		if sp, ok := nps[0].Call.Args[0].(*ssa.Call); ok && calleeName(&sp.Call) == "strings.Split" && constStringIs(sp.Call.Args[1], "/") {
+			v := sp.Call.Args[0]
+			for d := 0; d < 4; d++ {
+				c, ok := v.(*ssa.Call)
+				if !ok {
+					break
+				}
+				switch calleeName(&c.Call) {
+				case "strings.Trim", "strings.TrimLeft", "strings.TrimRight", "strings.TrimPrefix", "strings.TrimSuffix":
+					if !constStringIs(c.Call.Args[1], "/") {
+						why = "the path is trimmed of something other than '/' before it is split"
+						v = nil
+					} else {
+						v = c.Call.Args[0]
+					}
+				default:
+					why = "the path is rewritten by " + calleeName(&c.Call) + " before it is split into names: the names NormalizePath sees are not those of the path given"
+					v = nil
+				}
+				if v == nil {
+					break
+				}
+			}
+			if prm, ok := v.(*ssa.Parameter); ok && prm.Parent() == fn {
+				okIn = true
+			}
+		}
+		r.Check(okIn, "result", "ToWalk: NormalizePath receives the names of the path as given", nps[0].Pos(), why)
+	}
 	n := 0
 	for _, ret := range returnsOf(fn) {
 		if len(ret.Results) != 3 || !isNilConst(ret.Results[2]) {
@@ -867,4 +901,9 @@ func c16NormalizeFresh(r *Run, fn *ssa.Function, rule string) {
 			"the normalised list is a view of the caller's argument: normalising rewrites the caller's name list (a second walk with the same list sends different names)")
 	}
 	r.Floor(rule, n, 1, "success return of NormalizePath")
+}
+
+func constStringIs(v ssa.Value, want string) bool {
+	c, ok := v.(*ssa.Const)
+	return ok && c.Value != nil && c.Value.Kind() == constant.String && constant.StringVal(c.Value) == want
 }
